@@ -92,7 +92,7 @@ func init() {
 		} {
 			bound, budget := 1, 60
 			if !r.Quick() {
-				bound, budget = 2, 600
+				bound, budget = 2, 150 // about half a million executions each
 			}
 			engine.RunSched(r, engine.SchedSpec{Name: fsc["name"].(string), WorkerArgs: []string{"worker", "sched-fullsync"}, Scenario: fsc, Bound: bound, Horizon: 2500, BudgetS: budget})
 		}
